@@ -2,6 +2,8 @@ package mon
 
 import (
 	"bufio"
+	"encoding/base64"
+	"encoding/hex"
 	"fmt"
 	"math/big"
 	"os"
@@ -171,6 +173,58 @@ func c14Lookalikes() []string {
 			add("x" + k)
 			add("_" + k)
 		}
+		// multi-word keys written as one identifier (ORDERBY, group_by, InsertInto)
+		for k, v := range keywords() {
+			if v == 'F' || !strings.Contains(k, " ") {
+				continue
+			}
+			parts := strings.Fields(strings.ToLower(k))
+			ok := true
+			for _, p := range parts {
+				for i := 0; i < len(p); i++ {
+					if !isLetter(p[i]) {
+						ok = false
+					}
+				}
+			}
+			if !ok {
+				continue
+			}
+			add(strings.Join(parts, ""))
+			add(strings.Join(parts, "_"))
+			add(strings.ToUpper(strings.Join(parts, "")))
+			camel := ""
+			for _, p := range parts {
+				camel += strings.ToUpper(p[:1]) + p[1:]
+			}
+			add(camel)
+		}
+		// identifiers that are an attack in another alphabet: base64 / hex of
+		// injection strings (letters and digits only)
+		for _, a := range c14Attacks {
+			for _, pad := range []string{"", " ", "  "} {
+				b := base64.StdEncoding.EncodeToString([]byte(a + pad))
+				if !strings.ContainsAny(b, "+/=") {
+					add(b)
+					add("x" + b)
+				}
+				u := base64.RawURLEncoding.EncodeToString([]byte(a + pad))
+				if !strings.ContainsAny(u, "-") {
+					add(u)
+				}
+			}
+			add("x" + hex.EncodeToString([]byte(a)))
+			add("a" + strings.ToUpper(hex.EncodeToString([]byte(a))))
+			add("b64_" + strings.NewReplacer("+", "", "/", "", "=", "").Replace(base64.StdEncoding.EncodeToString([]byte(a))))
+		}
+		for _, a := range []string{"1 union select 1,2", "1 or 1=1 -- ", "1 or 1=1", "' or 'a'='a", "1;drop table t", "admin'--", "1 and sleep(5)", "x' or 1=1 -- "} {
+			for _, pad := range []string{"", " ", "  "} {
+				b := base64.StdEncoding.EncodeToString([]byte(a + pad))
+				if !strings.ContainsAny(b, "+/=") && isLetter(b[0]) {
+					add(b)
+				}
+			}
+		}
 		sort.Strings(c14Look)
 	})
 	return c14Look
@@ -281,7 +335,7 @@ func c14Instantiate(shape string, r *core.Rng, words []string) string {
 func c14() *core.Check {
 	return &core.Check{
 		ID: "C14",
-		Rule: "G_benign against the LIVE keyword table: word = [A-Za-z_][A-Za-z0-9_]* from a frozen list (4000 English words in three capitalisations + identifier shapes of length 1-40), also behind 28 identifier prefixes (sp_, xp_, pg_, is_, ... one family per sequence) and mixed with marker-like words (sp_password, near-keywords) that is not a key, component or dotted prefix of a key; number = [0-9]+ incl. 31/32/33-digit runs; (1) the token-class abstraction exhaustively: all 62 sequences over {n,1} of length 1-5 must be absent from the live blacklist; (2) every sequence shape over {word,number} up to length 7 joined by single spaces, 64 (thorough 16384) random instantiations each; (3) e-mail / decimal / sentence shapes incl. apostrophes, near-keyword words (one letter glued to a keyword) and random identifiers (those not dropped by the one-time calibration), sampled; (4) 24 M (thorough 300 M) inputs built from distinct random identifiers between numbers; (5) ~30 000 keyword look-alikes (digits for look-alike letters, one letter dropped / doubled / swapped, common suffixes; those that are not table words) in six frames; (6) one identifier of 2^k+d letters (k up to 16, d = -34..34, also 65568+d) whose tail spells a keyword. Oracle: IsSQLi = (false,\"\"). " +
+		Rule: "G_benign against the LIVE keyword table: word = [A-Za-z_][A-Za-z0-9_]* from a frozen list (4000 English words in three capitalisations + identifier shapes of length 1-40), also behind 28 identifier prefixes (sp_, xp_, pg_, is_, ... one family per sequence) and mixed with marker-like words (sp_password, near-keywords) that is not a key, component or dotted prefix of a key; number = [0-9]+ incl. 31/32/33-digit runs; (1) the token-class abstraction exhaustively: all 62 sequences over {n,1} of length 1-5 must be absent from the live blacklist; (2) every sequence shape over {word,number} up to length 7 joined by single spaces, 64 (thorough 16384) random instantiations each; (3) e-mail / decimal / sentence shapes incl. apostrophes, near-keyword words (one letter glued to a keyword) and random identifiers (those not dropped by the one-time calibration), sampled; (4) 24 M (thorough 300 M) inputs built from distinct random identifiers between numbers; (5) ~30 000 keyword look-alikes (digits for look-alike letters, one letter dropped / doubled / swapped, common suffixes; those that are not table words) in six frames; (6) one identifier of 2^k+d letters (k up to 16, d = -34..34, also 65568+d) whose tail spells a keyword; multi-word keys glued into one identifier; base64 / hex spellings of injection strings; (7) benign bodies of 128 KiB-16 MiB (thorough 64 MiB). Oracle: IsSQLi = (false,\"\"). " +
 			"Non-trivial = every instance; distinct by string. The per-context fingerprints are recorded to show that the n/1 abstraction is what the implementation produced.",
 		Exhaustive: false,
 		Plan: func(tier string, seed uint64) []core.Unit {
@@ -302,6 +356,7 @@ func c14() *core.Check {
 			us = append(us, gen.RangeUnits("randid", rid, 100000, "")...)
 			us = append(us, gen.RangeUnits("lookalike", uint64(len(c14Lookalikes())), 2000, "")...)
 			us = append(us, gen.RangeUnits("longword", uint64(len(c14LongBounds)*69), 23, "")...)
+			us = append(us, gen.RangeUnits("huge", uint64(len(hugeSizes(tier))*3), 1, tier)...)
 			return us
 		},
 		Gen: func(w *core.Worker, u core.Unit, emit func(core.Case)) {
@@ -355,7 +410,7 @@ func c14() *core.Check {
 					l := la[i]
 					n := c14Numbers[r.Intn(5)]
 					wd := c14Pick(r, words, 0)
-					for _, in := range []string{l + " " + n, n + " " + l + " " + n, wd + " " + l + " " + n, l + " " + l + " " + n, n + " " + l, l} {
+					for _, in := range []string{l + " " + n, n + " " + l + " " + n, wd + " " + l + " " + n, l + " " + l + " " + n, n + " " + l, l, wd + " " + l + " " + wd + " " + l + " " + wd} {
 						emit(core.Case{In: in, Kind: "look"})
 					}
 				}
@@ -380,6 +435,14 @@ func c14() *core.Check {
 						emit(core.Case{In: word + " 25", Kind: "longword"})
 						emit(core.Case{In: "7 " + word + " 3", Kind: "longword"})
 					}
+				}
+			case "huge":
+				// very large benign bodies (a size policy that fails closed)
+				sz := hugeSizes(u.Arg)
+				for i := u.Lo; i < u.Hi; i++ {
+					n := sz[int(i)/3]
+					unit := []string{"lorem ipsum dolor sit amet ", "word 42 ", "a"}[int(i)%3]
+					emit(core.Case{In: gen.Scale("", unit, "", n), Desc: gen.ScaleDesc("", unit, "", n), Kind: "huge"})
 				}
 			case "shape":
 				r := core.NewRng(w.R.Seed, "c14shape", fmt.Sprint(u.Lo))
@@ -483,6 +546,16 @@ func c14() *core.Check {
 	}
 }
 
+// hugeSizes: request-body sized inputs around the limits WAF deployments use
+// (128 KiB no-files limit, 1 MiB, 10^6, 12.5 MiB = SecRequestBodyLimit, 16 MiB; thorough: 32 / 64 MiB)
+func hugeSizes(tier string) []int {
+	s := []int{131073, 1<<20 + 1, 1000001, 4<<20 + 1, 10000001, 13107201, 16<<20 + 1}
+	if tier == "thorough" {
+		s = append(s, 32<<20+1, 64<<20+1)
+	}
+	return s
+}
+
 var c14LongBounds = []int{32, 64, 128, 256, 1024, 4096, 32768, 65536, 65568}
 
 type c14State struct {
@@ -581,7 +654,7 @@ func c19() *core.Check {
 	schemes := []string{"javascript:", "vbscript:", "data:", "view-source:"}
 	return &core.Check{
 		ID: "C19",
-		Rule: "(recall) for every scheme in {javascript:, vbscript:, data:, view-source:}: per-byte encodings in {literal, &#D;, &#D, &#0000D;, &#xH;, &#XH, &#x00H;} exhaustively for data: and the java prefix (8^5, 8^4) and sampled for the longer schemes, x leading junk (bytes <= 0x20, >= 0x7f, entity-encoded white space) x NUL/LF between scheme letters (also runs of 1-65537 ignorable characters / bytes at every position and as leading junk, with every length in 1020-1025, 4095-4097 and 65535-65537) x case masks; oracle: the URL predicate is true, and IsXSS(<a ATTR=quote(value)>) is true for every live URL attribute (also upper-/mixed-case and with NUL runs of 1-97 bytes inside the name) x 4 quotings. " +
+		Rule: "(recall) for every scheme in {javascript:, vbscript:, data:, view-source:}: per-byte encodings in {literal, &#D;, &#D, &#0000D;, &#xH;, &#XH, &#x00H;} exhaustively for data: and the java prefix (8^5, 8^4) and sampled for the longer schemes, x leading junk (bytes <= 0x20, >= 0x7f, entity-encoded white space) x NUL/LF between scheme letters (also runs of 1-65537 ignorable characters / bytes at every position and as leading junk, with every length in 1020-1025, 4095-4097 and 65535-65537) x case masks; oracle: the URL predicate is true, and IsXSS(<a ATTR=quote(value)>) is true for every live URL attribute (also upper-/mixed-case, with NUL runs of 1-97 bytes inside the name, and preceded by the same attribute with a harmless value) x 4 quotings; unquoted values keep their leading white-space / NUL junk (the tokenizer skips it). " +
 			"(decoder) every string over {& # x X ; 0 1 9 a f F g NUL 0xff} up to length 6 (thorough 7) plus boundary values around 0x1000FF in decimal and hex with 0-8 leading zeros and every tail, values that are small again modulo 2^31 ... 2^128 (wrap-around), and all 256 byte values in every position of a reference: (value, consumed) must equal the decoder specification, 1 <= consumed <= |s|. Non-trivial = decoder inputs starting with '&#' and all recall cases; distinct by input.",
 		Plan: func(tier string, seed uint64) []core.Unit {
 			L := 6
@@ -722,7 +795,7 @@ func c19() *core.Check {
 							junk = stretchTo(junk, g04StretchLens[r.Intn(len(g04StretchLens))])
 						}
 					}
-					v := junk + encodeScheme(sc, r.U64(), inter, r.U64(), true, runLen) + []string{"x", "alert(1)", "", "//a", "text/html,x", "image/svg+xml,<svg>", "image/png;base64,AAAA", "IMAGE/SVG+XML;base64,x", "http://x/", "msgbox(1)"}[r.Intn(10)]
+					v := junk + encodeScheme(sc, r.U64(), inter, r.U64(), true, runLen) + []string{"x", "alert(1)", "", "//a", "text/html,x", "image/svg+xml,<svg>", "image/png;base64,AAAA", "IMAGE/SVG+XML;base64,x", "http://x/", "msgbox(1)", "void(0)", "void(0);fetch(1)", "alert(1)//javascript:void(0)", "void(0)//"}[r.Intn(14)]
 					emit(core.Case{In: v, Kind: "url", A: int64(r.Intn(1 << 20))})
 				}
 			}
@@ -767,14 +840,19 @@ func c19() *core.Check {
 			q := g04Quotes[int(c.A/7)%len(g04Quotes)]
 			val := s
 			if q == "" {
-				// unquoted values end at white space / '>' and lose leading white space and NULs
-				val = strings.Map(func(r rune) rune {
+				// unquoted values end at white space / '>'; white space and NULs in
+				// front of the value are skipped by the tokenizer and stay
+				lead := 0
+				for lead < len(val) && strings.IndexByte(" \t\n\r\f\v\x00", val[lead]) >= 0 {
+					lead++
+				}
+				val = val[:lead] + strings.Map(func(r rune) rune {
 					switch r {
 					case ' ', '\t', '\n', '\r', '\f', '\v', '>':
 						return -1
 					}
 					return r
-				}, val)
+				}, val[lead:])
 				if !li.VerifIsBlackURL(val) {
 					q = "\""
 					val = s
@@ -794,6 +872,11 @@ func c19() *core.Check {
 				a = applyMask(a, uint64(c.A)*0x9e3779b97f4a7c15)
 			}
 			doc := "<a " + a + "=" + q + val + q + ">"
+			if int(c.A)%3 == 0 {
+				// the same attribute once before with a harmless value (duplicate
+				// attributes: each occurrence is judged on its own)
+				doc = "<a " + strings.ToLower(strings.ReplaceAll(a, "\x00", "")) + "=/home " + a + "=" + q + val + q + ">"
+			}
 			if !li.IsXSS(doc) {
 				w.Violate("scheme-not-recognised", fmt.Sprintf("IsXSS(%q) = false although the value decodes to a script-capable scheme\n%s", trunc(doc, 200), explainXSS(doc)))
 				return
